@@ -210,8 +210,11 @@ def call_expecting(c, name, fn, allowed=(), props=None):
     except Exception as e:
         # an exception raised *inside* the engine's own code is an engine bug, not a behaviour of cobyqa
         frames = traceback.extract_tb(e.__traceback__)
-        if frames and "/pyvc/" in frames[-1].filename and not isinstance(e, (KeyError, IndexError, ZeroDivisionError)):
-            raise Unsupported(f"engine bug: {type(e).__name__}: {e} at {frames[-1].filename}:{frames[-1].lineno}")
+        from .transform import repo_root
+        last_repo = max([i for i, f in enumerate(frames) if f.filename.startswith(repo_root())], default=-1)
+        eng = [f for f in frames[last_repo + 1:] if "/pyvc/" in f.filename]
+        if eng and not (isinstance(e, (KeyError, IndexError, ZeroDivisionError)) and "/pyvc/" in frames[-1].filename):
+            raise Unsupported(f"engine gap below the code under test: {type(e).__name__}: {e} at {eng[-1].filename}:{eng[-1].lineno}")
         tb = traceback.format_exc(limit=6)
         info = {"note": f"{type(e).__name__}: {e} | {tb[-600:]}"}
         if props:
